@@ -131,10 +131,11 @@ class SdoServer(SdoBase):
         logger.error("Block download is not supported")
         command, index, subindex = SDO_STRUCT.unpack_from(data)
         if command & 0x1 == INITIATE_BLOCK_TRANSFER:
-            # The abort must refer to the object addressed by this request
-            self._index = index
-            self._subindex = subindex
-        self.abort(0x05040001)
+            # The abort must refer to the object addressed by this request,
+            # a segmented transfer in progress keeps its own object
+            self.abort(0x05040001, index, subindex)
+        else:
+            self.abort(0x05040001)
 
     def init_download(self, request):
         # TODO: Check if writable (now would fail on end of segmented downloads)
@@ -194,10 +195,12 @@ class SdoServer(SdoBase):
     def send_response(self, response):
         self.network.send_message(self.tx_cobid, response)
 
-    def abort(self, abort_code=0x08000000):
+    def abort(self, abort_code=0x08000000, index=None, subindex=None):
         """Abort current transfer."""
+        if index is None:
+            index, subindex = self._index, self._subindex
         data = struct.pack("<BHBL", RESPONSE_ABORTED,
-                           self._index, self._subindex, abort_code)
+                           index, subindex, abort_code)
         self.send_response(data)
         # logger.error("Transfer aborted with code 0x%08X", abort_code)
 
